@@ -86,7 +86,56 @@ def Statement_bindings_complete : Prop :=
   ∀ (full : List Row) (ops : List HOp),
     ((Lazy.run ⟨[], some full⟩ ops).force.mat = full) ∧ ((Lazy.run ⟨full, none⟩ ops).force.mat = full)
 
+/-- several iterators alive at once over one result, interleaved arbitrarily with `len` / `bool` / `bindings` /
+    serialisations: after ANY history, what a serializer writes (`Result.bindings`) is the full table —
+    for a lazily evaluated result and for one built from a list. -/
+def Statement_bindings_complete_interleaved : Prop :=
+  ∀ (full : List Row) (ops : List MOp),
+    ((Multi.lazy full).run ops).1.force.mat = full ∧ ((Multi.listed full).run ops).1.force.mat = full
+
+/-- what the code guarantees about the rows handed out: the iterators that read from the evaluator's generator
+    hand out, taken together and in the order of the history, exactly the rows with a binding of a PREFIX of
+    the table — no row twice, none skipped, table order — however their `next()` calls interleave. -/
+def Statement_gen_yields_prefix : Prop :=
+  ∀ (full : List Row) (ops : List MOp),
+    ∃ pre rest, pre ++ rest = full ∧ genYields ((Multi.lazy full).run ops).2 = pre.filter rowBound
+
+/-- … and the whole table once the generator is dry, provided nothing read `Result.bindings` in between
+    (a `len()` / serialisation moves the remaining rows into the list, and the live iterators then stop early). -/
+def Statement_gen_yields_all_when_dry : Prop :=
+  ∀ (full : List Row) (ops : List MOp),
+    ops.any isForce = false → ((Multi.lazy full).run ops).1.pending = [] →
+      genYields ((Multi.lazy full).run ops).2 = full.filter rowBound
+
 /-! ### Theorems -/
+
+theorem bindings_complete_interleaved : Statement_bindings_complete_interleaved := by
+  intro full ops
+  constructor
+  · rw [mforce_mat _ (mrun_ok _ ops (by intro h; cases h)), mrun_all]; simp [Multi.all, Multi.lazy]
+  · rw [mforce_mat _ (mrun_ok _ ops (by intro _; rfl)), mrun_all]; simp [Multi.all, Multi.listed]
+
+theorem gen_yields_prefix : Statement_gen_yields_prefix := by
+  intro full ops
+  obtain ⟨pre, rest, h1, h2, -, -⟩ := mrun_yinv ops (yinv_lazy full)
+  exact ⟨pre, rest, h1, by simpa using h2⟩
+
+theorem gen_yields_all_when_dry : Statement_gen_yields_all_when_dry := by
+  intro full ops hnf hdry
+  obtain ⟨pre, rest, h1, h2, -, h4⟩ := mrun_yinv ops (yinv_lazy full)
+  have := h4 (by simp [hnf])
+  rw [hdry] at this
+  obtain ⟨-, rfl⟩ := this
+  simp only [List.append_nil] at h1
+  subst h1
+  simpa using h2
+
+/-- not guaranteed (and false): that one iterator sees the whole table.  Two iterators advanced alternately
+    over a two-row lazy result get one row each. -/
+theorem interleaved_iterators_share_rows :
+    ((Multi.lazy [[some (.iri ['x'])], [some (.iri ['y'])]]).run [.openIt, .openIt, .next 0, .next 1, .next 0, .next 1]).2
+      = [.opened, .opened, .row [some (.iri ['x'])] true, .row [some (.iri ['y'])] true, .stop, .stop] := by decide
+
 
 theorem bindings_complete : Statement_bindings_complete := by
   intro full ops
